@@ -251,11 +251,19 @@ def c10g(ctx, tu):
         ok = bool(sl)
         if ok:
             guard = None
+            from engine.auto import cond_shape
             for bid in fn.blocks:
                 c = cfg.cond_of(fn, bid)
-                if c is not None and c[:2] == ["param", 0]:
-                    guard = bid
-            ok = guard is not None and all(cfg.edge_dominates(fn, (guard, 0), b) for b, _, _ in sl)
+                if c is None:
+                    continue
+                t, pol = cond_shape(c)
+                if isinstance(t, list) and t[:2] == ["b", "!="] and ["null"] in t[2:4]:
+                    t = [x for x in t[2:4] if x != ["null"]][0]
+                elif isinstance(t, list) and t[:2] == ["b", "=="] and ["null"] in t[2:4]:
+                    t, pol = [x for x in t[2:4] if x != ["null"]][0], not pol
+                if isinstance(t, list) and lib.strip_casts(t)[:2] == ["param", 0]:
+                    guard = (bid, 0 if pol else 1)
+            ok = guard is not None and all(cfg.edge_dominates(fn, guard, b) for b, _, _ in sl)
         inits = {erase(e["field"]): e.get("x") for b, e in fn.events() if e["e"] == "init" and "field" in e}
         ok = ok and str(inits.get(L + "regex_check::string_helper::begin_")).count("'param', 0") == 1
         ctx.ob("C10.g", L + "regex_check::string_helper::string_helper(char const*)", ok, pattern=fn.pat, unit=tu.name,
